@@ -1,11 +1,10 @@
 (* C04 -- the response parser accepts exactly the response grammar and framing order.
-   PARTIAL as C03: acceptance (sound, complete), framing order, trailing data and "proper
-   prefixes need more input" are proved; error categories are covered by the correspondence
-   run against the model. *)
+   Acceptance (sound, complete), framing order, trailing data, "proper prefixes need more
+   input", timeliness and the rejection categories (first offending element) are proved. *)
 From Coq Require Import String.
 From Http Require Import Model.Bytes Model.Utf8 Model.Num Model.Headers Model.Request
      Model.Chunked Model.Response Spec.HeaderGrammar Spec.ChunkedGrammar Spec.ResponseGrammar
-     Proofs.RespGrammar Proofs.PrefixNeedsMore Proofs.Timely.
+     Spec.Rejections Proofs.RespGrammar Proofs.PrefixNeedsMore Proofs.Timely Proofs.RespRejects.
 
 Check (eq_refl : status_line = fun codetext reason => HTTP11 ++ [SP] ++ codetext ++ [SP] ++ reason).
 Check (Fr_fixed : forall hs t n body,
@@ -69,6 +68,23 @@ Theorem C04_more_input_only_while_unfinished :
 Proof. exact response_incomplete_means_unfinished. Qed.
 Print Assumptions C04_more_input_only_while_unfinished.
 
+(* rejections: a fresh parser rejects an input with category e exactly when the input has a first
+   offending element of that category (Spec/Rejections.v: response_defect -- status line not
+   text / no protocol delimiter / wrong protocol / no code delimiter / code not 1*DIGIT / code
+   >= 1000; first defective header line; bad Content-Length; in a chunked body the first bad
+   chunk-size line, chunk terminator or trailer line).  Each constructor needs only the bytes
+   up to the end of the offending element (line, header block up to that line, chunk up to its
+   terminator), so the rejection comes at the latest when that element is complete. *)
+Theorem C04_rejection_names_first_defect :
+  forall s e, (exists st, resp_parse resp_init s = (st, Reject e)) <-> response_defect s e.
+Proof. exact response_reject_iff. Qed.
+Print Assumptions C04_rejection_names_first_defect.
+
+Theorem C04_status_line_shape :
+  forall line e, parse_status_line line = inr e <-> sshape_defect line e.
+Proof. exact parse_status_line_reject. Qed.
+Print Assumptions C04_status_line_shape.
+
 (* status codes 0, 007, 999 accepted, 1000 and signed rejected; empty reason; framing order *)
 Example C04_examples :
   let r code := snd (resp_parse resp_init (str "HTTP/1.1 "%string ++ code ++ str " "%string ++ CRLF ++ CRLF)) in
@@ -81,3 +97,14 @@ Example C04_examples :
       | _ => False
       end).
 Proof. vm_compute. repeat split. Qed.
+
+Example C04_rejection_examples :
+  response_defect (str "HTTP/1.1 1000 X"%string ++ CRLF) EStatusCodeOutOfRange /\
+  response_defect (str "HTTP/1.0 200 OK"%string ++ CRLF) EStatusLineProtocol /\
+  response_defect (str "HTTP/1.1 200 OK"%string ++ CRLF ++ str "A: b"%string ++ CRLF ++ str "nocolon"%string ++ CRLF)
+    (EHeaders HNoColon) /\
+  response_defect (str "HTTP/1.1 200 OK"%string ++ CRLF ++ str "Transfer-Encoding: chunked"%string ++ CRLF ++ CRLF
+                   ++ str "2"%string ++ CRLF ++ str "abX"%string) EInvalidChunkTerminator.
+Proof.
+  repeat split; apply C04_rejection_names_first_defect; eexists; vm_compute; reflexivity.
+Qed.
